@@ -110,7 +110,7 @@ def load_exec(task):
     if out == "LoadError":
         frames = frames + ["bad"]
     discard = 200 if out == "discarded" else 0
-    sc = {"many": bool(many), "sel": sel, "frames": frames, "cutWarns": False, "discardAfter": discard}
+    sc = {"many": bool(many), "sel": sel, "frames": frames, "cutWarns": False, "discardAfter": discard, "neverStarted": False}
     end = {"ev": "end", "out": out, "yielded": n, "fd": tr.open_handles() > 0, "warned": False,
            "namesfile": bool(namesfile), "lineno": lineno, "nread": tr.nread}
     info = {"src": src, "note": note, "msg": msg, "fmt": fmtarg, "basename": basename, "many": many, "module": module}
